@@ -382,6 +382,13 @@ def processToken (spec : AbsSpec) (cfg : Cfg) (m : Mech) (token : Bytes) : Excep
 -- the micro-step
 -- ---------------------------------------------------------------------------------------------
 
+/-- frame-size limit in force before the data phase: MAXMSGSIZE, but never below `HANDSHAKE_FRAME_LIMIT`
+(`handshake_frame_limit`; 0 in the generated constants = the handshake uses MAXMSGSIZE as is) -/
+def hsLimit (cfg : Cfg) : Int :=
+  if Gen.HANDSHAKE_FRAME_LIMIT == 0 then cfg.maxMsgSize
+  else if cfg.maxMsgSize < 0 then -1
+  else if cfg.maxMsgSize < (Gen.HANDSHAKE_FRAME_LIMIT : Int) then (Gen.HANDSHAKE_FRAME_LIMIT : Int) else cfg.maxMsgSize
+
 def fail (s : Eng) (e : ErrClass) : Eng × Out :=
   ({ s with phase := .closed }, { app := [.peerError e] })
 
@@ -463,7 +470,7 @@ def step (spec : AbsSpec) (cfg : Cfg) (now : Nat) (s : Eng) : Option (Eng × Out
       if mechStatus spec cfg s.mech == .ready then
         some (enterReady cfg s (match s.mech with | .abs .. => true | _ => false))
       else
-        match decodeBuffer cfg.maxMsgSize s.acc with
+        match decodeBuffer (hsLimit cfg) s.acc with
         | .needMore => none
         | .error => some (fail s .proto)
         | .panic => none
@@ -474,7 +481,7 @@ def step (spec : AbsSpec) (cfg : Cfg) (now : Nat) (s : Eng) : Option (Eng × Out
             if mechStatus spec cfg m' == .error then some (fail { s with acc := rest, mech := m' } .sec)
             else some ({ s with acc := rest, mech := m', gTokens := s.gTokens ++ [f.payload] }, {})
   | .ready =>
-    match decodeBuffer cfg.maxMsgSize s.acc with
+    match decodeBuffer (hsLimit cfg) s.acc with
     | .needMore => none
     | .error => some (fail s .proto)
     | .panic => none
@@ -497,7 +504,7 @@ def step (spec : AbsSpec) (cfg : Cfg) (now : Nat) (s : Eng) : Option (Eng × Out
       some ({ s with v2IdentitySent := true },
             { net := [sendAct (encodeCodec { payload := cfg.routingId, more := false, command := false })] })
     else
-      match decodeBuffer cfg.maxMsgSize s.acc with
+      match decodeBuffer (hsLimit cfg) s.acc with
       | .needMore => none
       | .error => some (fail s .proto)
       | .panic => none
